@@ -107,7 +107,15 @@ def gen_graph(rng, version):
         if nm not in names:
             feats.add("copy-name-taken-by-nonsegment")
             if version == "gfa1":
-                if rng.random() < 0.5:
+                others = [x for x in names if x != s0]
+                if rng.random() < 0.3 and others and not any(k[0] == "C" for k in seen):
+                    # (the ID tag of a containment is in the same namespace)
+                    o = rng.choice(others)
+                    lines.append("C\t%s\t+\t%s\t+\t0\t*\tID:Z:%s" % (o, rng.choice(others), nm)
+                                 if len(others) > 1 and rng.random() < 0.5 else
+                                 "C\t%s\t+\t%s\t+\t0\t*\tID:Z:%s" % (s0, o, nm))
+                    feats.add("containment")
+                elif rng.random() < 0.5:
                     lines.append("P\t%s\t%s+\t*" % (nm, s0))
                 else:
                     o = rng.choice(names)
@@ -118,7 +126,11 @@ def gen_graph(rng, version):
                         lines.append("L\t%s\t+\t%s\t+\t*\tID:Z:%s" % (s0, o, nm))
                         seen.add(k1)
             else:
-                lines.append(rng.choice(["U\t%s\t%s", "O\t%s\t%s+"]) % (nm, rng.choice(names)))
+                k = rng.random()
+                if k < 0.5:
+                    lines.append(rng.choice(["U\t%s\t%s", "O\t%s\t%s+"]) % (nm, rng.choice(names)))
+                else:
+                    lines.append("G\t%s\t%s+\t%s-\t10\t*" % (nm, rng.choice(names), rng.choice(names)))
     return lines, names, sorted(feats)
 
 
